@@ -311,7 +311,7 @@ def step (conf : Conf) (c : Chan) : Op → Chan × Out
                   hist := Ev.closed k :: c.hist }, .ok)
   | .deliver k id now =>
     -- one iteration of protocolV2.messagePump that received a message:
-    -- guard, receive, Attempts++, StartInFlightTimeout, SendingMessage, SendMessage
+    -- guard, receive, Attempts++, SendingMessage, StartInFlightTimeout (count first, register second: F13), SendMessage
     match findC c.clients k with
     | none => (c, .reject "no-client")
     | some cl =>
@@ -399,9 +399,12 @@ def step (conf : Conf) (c : Chan) : Op → Chan × Out
   | .pause => ({ c with paused := true, hist := Ev.pauseSet true :: c.hist }, .ok)
   | .unpause => ({ c with paused := false, hist := Ev.pauseSet false :: c.hist }, .ok)
   | .empty =>
-    -- Channel.Empty: initPQ, client.Empty() for every client, drain the memory channel, backend.Empty
+    -- Channel.Empty (fix F13): `dropped := initPQ()` counts per consumer the in-flight messages the
+    -- reset drops, `client.Discarded(dropped[id])` subtracts exactly that (a message already taken
+    -- out of the map by a FIN whose `FinishedMessage` is still pending is not counted: that FIN
+    -- decrements the counter itself); drain the memory channel, backend.Empty
     ({ c with msgs := [], memLen := 0, dqLen := 0,
-              clients := c.clients.map (fun cl => { cl with inFlight := 0 }),
+              clients := c.clients.map (fun cl => { cl with inFlight := cl.inFlight - (heldBy c.msgs cl.conn : Int) }),
               hist := Ev.emptied (c.msgs.map (·.id)) :: c.hist }, .ids (c.msgs.map (·.id)))
   | .resplit m d =>
     if m + d = c.memLen + c.dqLen && decide (m ≤ c.memCap) && (!c.ephemeral || d == 0) then
